@@ -3,8 +3,9 @@
 from __future__ import annotations
 
 import ast
+import re
 
-from ..astutil import call_name, calls_in, const_str, guard_atoms, lexical_guards, test_atoms, unparse, walk_local
+from ..astutil import call_name, calls_in, const_str, guard_atoms, lexical_guards, own_exprs, test_atoms, unparse, walk_local
 from ..oracles import load
 from ..report import Registry, sub
 
@@ -17,9 +18,15 @@ R = Registry(
         "cascade_iterator()/prop.merge with the cascade type the documentation assigns to that API (oracle "
         "cascade_api.json); Mapper.cascade_iterator skips every relationship whose cascade set lacks the "
         "requested type and forwards that same type; every cascade literal compared with a cascade type or "
-        "tested against a cascade set anywhere in orm/ is a real cascade name."
+        "tested against a cascade set anywhere in orm/ is a real cascade name; every presort_saves/presort_deletes "
+        "of a dependency processor that visits children removed from the relationship registers them for deletion "
+        "exactly under cascade.delete_orphan (and hasparent(child) is False where only removed children are "
+        "visited); every get_all_pending implementation (source of the save-update cascade) consults the "
+        "committed original before every non-empty return and returns it, and cascade_iterator reads it exactly "
+        "for 'save-update'."
     ),
-    not_decided="which objects are reached or deleted for a given object graph and history; delete-orphan processing in the unit of work.",
+    not_decided="which objects are reached or deleted for a given object graph and history; the flush-level orphan scan "
+                "(Mapper._is_orphan) and the FK nulling in process_saves/process_deletes.",
 )
 
 UTIL = "orm/util.py"
@@ -218,6 +225,267 @@ def r3(ctx):
     ctx.require(n_lit >= 5, f"only {n_lit} cascade literal tests found (rule went blind)")
 
 
+# ------------------------------------------------------------------ R4: delete-orphan decision in presort
+DEP = "orm/dependency.py"
+DP = f"{DEP}::_DependencyProcessor"
+
+
+def _is_flag(e, flag="delete_orphan"):
+    return isinstance(e, ast.Attribute) and e.attr == flag and "cascade" in unparse(e.value)
+
+
+def _local_assigns(fn):
+    out = {}
+    for n in walk_local(fn):
+        if isinstance(n, ast.Assign) and len(n.targets) == 1 and isinstance(n.targets[0], ast.Name):
+            out.setdefault(n.targets[0].id, []).append((n.value, n))
+    return out
+
+
+def _history_part(e, hist):
+    """accessor name when `e` is `<history>.<part>` or `<history>.<part>()`"""
+    if isinstance(e, ast.Call) and not e.args:
+        e = e.func
+    if isinstance(e, ast.Attribute) and isinstance(e.value, ast.Name) and e.value.id in hist:
+        return e.attr
+    return None
+
+
+def _guard_atoms_at(g, node_ast):
+    atoms = set()
+    ids = g.nodes_containing(node_ast) if not isinstance(node_ast, ast.stmt) else g.nodes_for(node_ast)
+    first = True
+    for nid in ids:
+        a = set()
+        for t, pol in g.edge_guards(nid):
+            a |= set(test_atoms(t, pol))
+        atoms = a if first else (atoms & a)
+        first = False
+    return atoms
+
+
+def _orphan_flag_true(atoms):
+    return any(pol and re.fullmatch(r"[\w.]+\.delete_orphan", txt) for txt, pol in atoms)
+
+
+def _no_parent(atoms, var):
+    call = f"self.hasparent({var})"
+    return (f"{call} is False", True) in atoms or (call, False) in atoms
+
+
+@R.rule("C39-R4", floor=5, template="T-SIBLING",
+        desc="every presort_saves/presort_deletes of a dependency processor that visits the children REMOVED from the "
+             "relationship (history.deleted, or an accessor that includes them) registers them for deletion exactly "
+             "under cascade.delete_orphan, and -- where only removed children are visited -- only when the child has "
+             "not been re-associated (hasparent(child) is False)")
+def r4(ctx):
+    parts = load("history_parts.json")
+    incl, only = parts["includes_deleted"], set(parts["only_deleted"])
+    base = ctx.index.cls(DP)
+    classes = [c for c in ctx.index.subclasses(base) if c.module.relpath == DEP]
+    ctx.require(len(classes) >= 3, f"only {len(classes)} dependency processor classes found")
+    n_sites = 0
+    for c in sorted(classes, key=lambda c: c.name):
+        for mname in ("presort_deletes", "presort_saves"):
+            f = c.methods.get(mname)
+            if f is None:
+                continue
+            fn = f.node
+            assigns = _local_assigns(fn)
+            hist = {n for n, defs in assigns.items()
+                    if any(isinstance(v, ast.Call) and (call_name(v) or "").endswith(".get_attribute_history") for v, _ in defs)}
+            if not hist:
+                continue
+            g = ctx.cfg(f)
+            ctx.functions_analysed.add(f.key)
+            problems, how = [], []
+            found = False
+            for loop in [n for n in walk_local(fn) if isinstance(n, ast.For) and isinstance(n.target, ast.Name)]:
+                var = loop.target.id
+                # which history accessors feed this loop, and where is that decided
+                feeds = []
+                part = _history_part(loop.iter, hist)
+                if part is not None:
+                    feeds.append((part, loop))
+                elif isinstance(loop.iter, ast.Name):
+                    for v, st in assigns.get(loop.iter.id, []):
+                        part = _history_part(v, hist)
+                        if part is not None:
+                            feeds.append((part, st))
+                for part, _ in feeds:
+                    ctx.require(part in incl, f"{f.key}: History accessor `{part}` not in the oracle")
+                removed = [(p_, st) for p_, st in feeds if incl[p_]]
+                if not removed:
+                    continue
+                found = True
+                regs = []
+                for call in calls_in(loop):
+                    if (call_name(call) or "").endswith(".register_object") and call.args \
+                            and isinstance(call.args[0], ast.Name) and call.args[0].id == var:
+                        regs.append(call)
+                deletes = []
+                for call in regs:
+                    val = None
+                    for kw in call.keywords:
+                        if kw.arg == "isdelete":
+                            val = kw.value
+                    if val is None and len(call.args) > 1:
+                        val = call.args[1]
+                    if val is None or (isinstance(val, ast.Constant) and val.value is False):
+                        continue
+                    if isinstance(val, ast.Constant) and val.value is True:
+                        deletes.append((call, False))
+                        continue
+                    srcs = [val]
+                    if isinstance(val, ast.Name):
+                        srcs = [v for v, _ in assigns.get(val.id, [])]
+                    ctx.require(srcs and all(_is_flag(v) for v in srcs),
+                                f"{f.key}: isdelete= value `{unparse(val)}` of register_object not understood")
+                    deletes.append((call, True))
+                only_removed = all(p_ in only for p_, _ in removed)
+                where = f"`for {var} in {unparse(loop.iter)}`"
+                if not deletes:
+                    problems.append(
+                        f"{where} visits children removed from the relationship but never registers them with "
+                        "isdelete=True: with cascade.delete_orphan the de-associated child is not deleted at flush "
+                        "(sibling presort methods register it for deletion under delete_orphan)")
+                    continue
+                for call, by_flag in deletes:
+                    atoms = _guard_atoms_at(g, call)
+                    if only_removed:
+                        if not by_flag and not _orphan_flag_true(atoms):
+                            problems.append(f"{where}: `{unparse(call)[:70]}` deletes a de-associated child without "
+                                            "cascade.delete_orphan being established")
+                        if not _no_parent(atoms, var):
+                            problems.append(f"{where}: the child is registered for deletion without "
+                                            f"`self.hasparent({var}) is False` (a re-associated child must survive)")
+                    else:
+                        for p_, st in removed:
+                            a2 = _guard_atoms_at(g, st) | atoms
+                            if not by_flag and not _orphan_flag_true(a2):
+                                problems.append(
+                                    f"{where}: the iterable includes removed children (`.{p_}`) and they are registered "
+                                    "for deletion without cascade.delete_orphan being established")
+                how.append(f"{where}: isdelete under delete_orphan" + (" and hasparent is False" if only_removed else ""))
+            if not found:
+                continue
+            n_sites += 1
+            ctx.check(not problems, f"{f.key}:removed-children", "; ".join(problems), "; ".join(how), f.loc)
+    ctx.require(n_sites >= 3, f"only {n_sites} presort sites visiting removed children found (rule went blind)")
+
+
+# ------------------------------------------------------------------ R5: save-update cascade source
+ATTR = "orm/attributes.py"
+
+
+def _reads_attr(node, base, attr):
+    return any(isinstance(n, ast.Attribute) and n.attr == attr and isinstance(n.value, ast.Name) and n.value.id == base
+               for n in ast.walk(node))
+
+
+@R.rule("C39-R5", floor=4, template="T-PATH",
+        desc="get_all_pending() of every object-attribute implementation (the source of the save-update cascade) returns "
+             "current members AND the replaced/removed originals: every non-empty return is preceded by a consultation "
+             "of the committed (original) value on every path, and the original flows into a returned value; "
+             "RelationshipProperty.cascade_iterator reads get_all_pending exactly for 'save-update'")
+def r5(ctx):
+    impls = []
+    for m in ctx.index.all_modules():
+        if not m.relpath.startswith("orm/"):
+            continue
+        for fi in ctx.index.all_functions(m):
+            if fi.name == "get_all_pending" and fi.cls is not None and not fi.type_only:
+                body = [st for st in fi.node.body if not (isinstance(st, ast.Expr) and isinstance(st.value, ast.Constant))]
+                if len(body) == 1 and isinstance(body[0], ast.Raise):
+                    continue  # abstract
+                impls.append(fi)
+    ctx.require(len(impls) >= 3, f"only {len(impls)} get_all_pending implementations found")
+    for f in sorted(impls, key=lambda f: f.key):
+        ctx.functions_analysed.add(f.key)
+        fn = f.node
+        ctx.require(len(f.params) >= 2, f"{f.key}: signature not understood")
+        state = f.params[1]
+        g = ctx.cfg(f)
+        # attributes of a history object whose definition includes the removed members
+        hist_attrs = set()
+        for c in f.module.classes.values():
+            for name, meth in c.methods.items():
+                if "property" in " ".join(meth.decorators) and _reads_attr(meth.node, "self", "deleted_items"):
+                    hist_attrs.add(name)
+
+        def is_src(node):
+            for n in ast.walk(node):
+                if isinstance(n, ast.Attribute) and n.attr == "committed_state" and isinstance(n.value, ast.Name) \
+                        and n.value.id == state:
+                    return True
+                if isinstance(n, ast.Attribute) and n.attr in hist_attrs and isinstance(n.ctx, ast.Load):
+                    return True
+            return False
+
+        src_nodes = set()
+        for n in g.nodes:
+            if n.stmt is None or not isinstance(n.stmt, ast.stmt) or n.kind in ("with_exit", "handler", "join"):
+                continue
+            if any(is_src(p) for p in own_exprs(n.stmt)):
+                src_nodes.add(n.id)
+        rets = [n for n in walk_local(fn) if isinstance(n, ast.Return)]
+        problems = []
+        nonempty = [r_ for r_ in rets if not (r_.value is None or (isinstance(r_.value, (ast.List, ast.Tuple)) and not r_.value.elts))]
+        ctx.require(nonempty, f"{f.key}: no non-empty return found")
+        if not src_nodes:
+            problems.append("never consults the committed (original) value: objects removed from the attribute are not "
+                            "reached by the save-update cascade")
+        else:
+            for r_ in nonempty:
+                for nid in g.nodes_for(r_):
+                    wit = g.always_preceded(nid, src_nodes)
+                    if wit is not None:
+                        problems.append(
+                            f"`{unparse(r_)[:60]}` (line {r_.lineno}) is reachable without consulting "
+                            f"{state}.committed_state: on that path the replaced/removed original is left out of the "
+                            "result, so the save-update cascade does not reach it")
+                        break
+            # the original must flow into some returned value
+            tainted = set()
+            changed = True
+
+            def mentions(e):
+                return is_src(e) or any(isinstance(n, ast.Name) and n.id in tainted for n in ast.walk(e))
+
+            while changed:
+                changed = False
+                for n in walk_local(fn):
+                    tgt = None
+                    if isinstance(n, ast.Assign) and mentions(n.value):
+                        tgt = [e.id for t in n.targets for e in ast.walk(t) if isinstance(e, ast.Name)]
+                    elif isinstance(n, ast.AugAssign) and mentions(n.value) and isinstance(n.target, ast.Name):
+                        tgt = [n.target.id]
+                    elif isinstance(n, (ast.For, ast.comprehension)) and mentions(n.iter):
+                        tgt = [e.id for e in ast.walk(n.target) if isinstance(e, ast.Name)]
+                    elif isinstance(n, ast.Call) and isinstance(n.func, ast.Attribute) and isinstance(n.func.value, ast.Name) \
+                            and n.func.attr in ("append", "extend", "add", "update", "insert") \
+                            and any(mentions(a) for a in n.args):
+                        tgt = [n.func.value.id]
+                    for t in tgt or ():
+                        if t not in tainted:
+                            tainted.add(t)
+                            changed = True
+            if not any(r_.value is not None and mentions(r_.value) for r_ in rets):
+                problems.append("the committed (original) value is consulted but never becomes part of a returned value")
+        ctx.check(not problems, f.key, "; ".join(dict.fromkeys(problems)),
+                  f"{len(nonempty)} non-empty return(s), each after the original is consulted", f.loc)
+    # consumer
+    ci = ctx.func("orm/relationships.py::RelationshipProperty.cascade_iterator")
+    tp = ci.params[1]
+    gc = ctx.cfg(ci)
+    calls = [c for c in calls_in(ci.node) if isinstance(c.func, ast.Attribute) and c.func.attr == "get_all_pending"]
+    ctx.require(calls, f"{ci.key}: get_all_pending call not found")
+    atoms = _guard_atoms_at(gc, calls[0])
+    ctx.check((f"{tp} == 'save-update'", True) in atoms, f"{ci.key}:save-update-source",
+              f"get_all_pending (current + replaced members) is not read exactly under `{tp} == 'save-update'` (guards: {sorted(atoms)})",
+              "get_all_pending under type_ == 'save-update'", ci.loc)
+
+
 # --------------------------------------------------------------------------------------- self-test
 R.mutant("flag-from-wrong-literal", UTIL,
          sub("        self.refresh_expire = \"refresh-expire\" in values\n", "        self.refresh_expire = \"refresh_expire\" in values\n"), "C39-R1")
@@ -248,7 +516,58 @@ R.mutant("relationship-literal-typo", "orm/relationships.py",
          sub("        if type_ == \"save-update\":\n            tuples = state.manager[self.key].impl.get_all_pending(state, dict_)\n",
              "        if type_ == \"save_update\":\n            tuples = state.manager[self.key].impl.get_all_pending(state, dict_)\n"),
          "C39-R3")
+# R4
+R.mutant("o2m-presort-deletes-orphan-not-deleted", DEP,
+         sub("                        if self.cascade.delete_orphan:\n                            uowcommit.register_object(child, isdelete=True)\n                        else:\n                            uowcommit.register_object(child)\n",
+             "                        uowcommit.register_object(child)\n"),
+         "C39-R4")
+R.mutant("m2m-presort-saves-ignores-reassociation", DEP,
+         sub("                for child in history.deleted:\n                    if self.hasparent(child) is False:\n                        uowcommit.register_object(\n",
+             "                for child in history.deleted:\n                    if child is not None:\n                        uowcommit.register_object(\n"),
+         "C39-R4")
+R.mutant("m2o-presort-deletes-sum-under-delete", DEP,
+         sub("                    if self.cascade.delete_orphan:\n                        todelete = history.sum()\n",
+             "                    if self.cascade.delete:\n                        todelete = history.sum()\n"),
+         "C39-R4")
+R.mutant("m2m-presort-saves-no-orphan-flag", DEP,
+         sub("        if not self.cascade.delete_orphan:\n            return\n\n", ""),
+         "C39-R4")
+R.mutant("m2o-presort-saves-flag-is-delete", DEP,
+         sub("            uowcommit.register_object(state, operation=\"add\", prop=self.prop)\n            if self.cascade.delete_orphan:\n",
+             "            uowcommit.register_object(state, operation=\"add\", prop=self.prop)\n            if self.cascade.delete:\n"),
+         "C39-R4")
+# R5
+R.mutant("scalar-pending-early-return-on-none", ATTR,
+         sub("        else:\n            ret = [(None, None)]\n", "        else:\n            return [(None, None)]\n"),
+         "C39-R5")
+R.mutant("scalar-pending-original-not-appended", ATTR,
+         sub("                ret.append((instance_state(original), original))\n", "                pass\n"),
+         "C39-R5")
+R.mutant("writeonly-pending-without-deleted", "orm/writeonly.py",
+         sub("        return [(attributes.instance_state(x), x) for x in c.all_items]\n",
+             "        return [\n            (attributes.instance_state(x), x) for x in c.added_plus_unchanged\n        ]\n"),
+         "C39-R5")
+R.mutant("collection-pending-current-only", ATTR,
+         sub("        current = getattr(current, \"_sa_adapter\")\n\n        if self.key in state.committed_state:\n",
+             "        current = getattr(current, \"_sa_adapter\")\n        if not state.modified:\n            return [(instance_state(o), o) for o in current]\n\n        if self.key in state.committed_state:\n"),
+         "C39-R5")
+R.mutant("cascade-iterator-pending-for-wrong-type", "orm/relationships.py",
+         sub("        if type_ == \"save-update\":\n            tuples = state.manager[self.key].impl.get_all_pending(state, dict_)\n",
+             "        if type_ == \"merge\":\n            tuples = state.manager[self.key].impl.get_all_pending(state, dict_)\n"),
+         "C39-R5")
 # benign
+R.mutant("benign-o2m-presort-deletes-flag-as-value", DEP,
+         sub("                        if self.cascade.delete_orphan:\n                            uowcommit.register_object(child, isdelete=True)\n                        else:\n                            uowcommit.register_object(child)\n",
+             "                        uowcommit.register_object(\n                            child, isdelete=self.cascade.delete_orphan\n                        )\n"),
+         None)
+R.mutant("benign-o2m-presort-deletes-arms-swapped", DEP,
+         sub("                        if self.cascade.delete_orphan:\n                            uowcommit.register_object(child, isdelete=True)\n                        else:\n                            uowcommit.register_object(child)\n",
+             "                        if not self.cascade.delete_orphan:\n                            uowcommit.register_object(child)\n                        else:\n                            uowcommit.register_object(child, isdelete=True)\n"),
+         None)
+R.mutant("benign-scalar-pending-get-original", ATTR,
+         sub("        if self.key in state.committed_state:\n            original = state.committed_state[self.key]\n            if (\n                original is not None\n                and original is not PASSIVE_NO_RESULT\n                and original is not NO_VALUE\n                and original is not current\n            ):\n                ret.append((instance_state(original), original))\n        return ret\n",
+             "        original = state.committed_state.get(self.key, NO_VALUE)\n        if (\n            original is not None\n            and original is not PASSIVE_NO_RESULT\n            and original is not NO_VALUE\n            and original is not current\n        ):\n            ret.append((instance_state(original), original))\n        return ret\n"),
+         None)
 R.mutant("benign-rename-values", UTIL,
          sub("        self = super().__new__(cls, values)\n", "        n_values = len(values)\n        self = super().__new__(cls, values)\n"), None)
 R.mutant("benign-mapper-split-test", "orm/mapper.py",
